@@ -30,8 +30,9 @@ CLAIMED = {
              "alternatives) x 60 value classes (bool/int/float subclasses, numpy scalars, __index__/__float__/"
              "__complex__ objects incl. raising ones, NaN/inf/-0.0, huge ints, None, text, tuples, lists, classes, "
              "instances) x 4 assignment routes. Session 4: Array / CArray / ArrayOrNone (ArrayTrait.tla: 8 dtypes x 12 shape patterns x 3-5 casting rules x ~160 numpy arrays, nested lists/tuples, ragged and non-sequence values; the documented default zeros(min(shape)); numpy's casting rules checked as an environment assumption) and This/self, Module, Date, Datetime, Time, UUID, File, Directory, Expression (MoreTypes.tla) are now part of this check; This and Complex also as Tuple members / compound alternatives.",
-        note="Trusted: TLC; one concrete representative per value class; Array, Date/Time/UUID, File/Directory, "
-             "List/Dict/Set element validation (C04) are outside this check.",
+        note="Trusted: TLC; one concrete representative per value class (several for arrays: dtype x shape x contents); numpy's "
+             "can_cast / asarray rules are an environment assumption checked against the installed numpy; List/Dict/Set element "
+             "validation is C04's subject; WeakRef, String variants (Regex, Code, HTML, Password) and dynamic Enum are outside.",
         design="4/C01"),
     "C03": dict(
         technique=TLA + "the transcriptions Fast and Py of Validate.tla are compared by TLC for every (configuration, "
@@ -41,8 +42,8 @@ CLAIMED = {
         text="Same enumeration as C01; three-way agreement spec-Fast = C path, spec-Py = Python path, Fast ~ Py, for "
              "all fast-validating trait types and compound nestings (Either with nested Either, Python-only "
              "alternatives, Tuple members, lazily resolved Instance inside a compound). Session 4: This (self_type validator) and Module, also as compound alternatives / Tuple members; Complex as a compound alternative.",
-        note="Trusted: TLC; legacy Trait()/TraitCoerceType handlers are not enumerated; a Python method raising a "
-             "non-TraitError exception where the fast path raises TraitError counts as agreement (both reject).",
+        note="Trusted: TLC; a Python method raising a non-TraitError exception where the fast path raises TraitError counts as "
+             "agreement (both reject); known finding F28 (values whose __class__ lies).",
         design="4/C03"),
     "C02": dict(
         technique=TLA + "Notify.tla models the C pre-filter and each mechanism's own filter as the code is structured; "
